@@ -296,17 +296,24 @@ class F:
         p = M.pat(pattern) if isinstance(pattern, str) else pattern
         out = []
         for n in self.g.nodes:
-            seen = set()
+            raw_hits, exp_hits = [], []
             for e in n.exprs:
                 if e is None:
                     continue
-                for root in (e, self.xe_at(n.idx, e)):
-                    for c in walk_local(root):
+                for c in walk_local(e):
+                    if isinstance(c, ast.Call):
+                        b = M.match(p, c)
+                        if b is not None:
+                            raw_hits.append((n.idx, c, b))
+                if not raw_hits:
+                    seen = set()
+                    for c in walk_local(self.xe_at(n.idx, e)):
                         if isinstance(c, ast.Call):
                             b = M.match(p, c)
                             if b is not None and norm(c) not in seen:
                                 seen.add(norm(c))
-                                out.append((n.idx, c, b))
+                                exp_hits.append((n.idx, c, b))
+            out += raw_hits or exp_hits
         return out
 
     def stores(self, target_pattern) -> List[Tuple[int, ast.AST, dict]]:
